@@ -1395,6 +1395,12 @@ _vbi_cache_foreach_page		(vbi_cache *		ca,
 				--ps;
 
 				if (pgno < 0x100) {
+					if (wrapped) {
+						/* All pages visited and the
+						   callback did not stop. */
+						return -1;
+					}
+
 					pgno = 0x8FF;
 					ps = cache_network_page_stat(cn, pgno);
 					wrapped = TRUE;
@@ -1406,6 +1412,12 @@ _vbi_cache_foreach_page		(vbi_cache *		ca,
 				++ps;
 
 				if (pgno > 0x8FF) {
+					if (wrapped) {
+						/* All pages visited and the
+						   callback did not stop. */
+						return -1;
+					}
+
 					pgno = 0x100;
 					ps = cache_network_page_stat(cn, pgno);
 					wrapped = TRUE;
